@@ -14,7 +14,7 @@ _sel = [h for h in _fg['harnesses'] if _st is None or _st.get(h['fn'], {}).get('
 _NQ = max(1, len(_sel) // 14); _NT = max(1, len(_sel) // 220)
 for _i, _h in enumerate(_sel):
     HARNESSES.append(Harness('forms', _h['fn'], unwind=17, tiers=('quick', 'thorough'), mem_gb=5, timeout=900, validate_runs=200,
-                             rotate=(_i % _NQ, _NQ), rotate_thorough=((_i * 7919) % _NT, _NT),
+                             rotate=(_i % _NQ, _NQ), rotate_thorough=((_i * 7919) % _NT, _NT), known=_h.get('known'),
                              bounds='instruction %s, %s-bit mode, %d database record(s): %s; every register id of each operand class, memory = base/index/scale/disp32/segment/abs/RIP forms, immediates full width, {k}{z}' % (
                                  _h['inst'], _h['mode'], _h['nforms'], ' | '.join(_h['records'])[:300])))
 EXPLANATION = 'bounded symbolic execution (CBMC) of the real x86::Assembler::_emit + strict validation, decoded by an independent reference decoder in the harness'
